@@ -88,6 +88,31 @@ TakeOpt ==
   /\ drops' = Bump(drops, Range(cell.ids))
   /\ UNCHANGED <<mem, view, nextId>> /\ last' = [kind |-> "took", n |-> cell.tag]
 
+(* CResult::ok (result.rs:74): Ok(v) -> Some(v), Err(e) -> None and e is destroyed; the result is a Rust Option *)
+ResOk ==
+  /\ cell.shape = "res" /\ cell.form = "c"
+  /\ IF cell.tag = 0
+       THEN /\ cell' = [shape |-> "opt", form |-> "rust", tag |-> 1, ids |-> cell.ids]
+            /\ UNCHANGED drops
+       ELSE /\ cell' = [shape |-> "opt", form |-> "rust", tag |-> 0, ids |-> <<>>]
+            /\ drops' = Bump(drops, Range(cell.ids))
+  /\ UNCHANGED <<mem, view, nextId>> /\ last' = L("ok")
+
+(* COption::as_mut / CResult::as_mut (option.rs:60, result.rs:88): assignment through the mutable reference *)
+(* destroys the old payload once and stores the new one; the variant does not change                         *)
+ReplaceMut ==
+  /\ cell.shape \in {"opt", "res"} /\ cell.form = "c" /\ Len(cell.ids) = 1 /\ nextId <= MaxId
+  /\ cell' = [cell EXCEPT !.ids = <<nextId>>]
+  /\ nextId' = nextId + 1
+  /\ drops' = Bump(drops, Range(cell.ids))
+  /\ UNCHANGED <<mem, view>> /\ last' = L("ok")
+
+(* COption::default() is None *)
+DefaultOpt ==
+  /\ cell' = [shape |-> "opt", form |-> "c", tag |-> 0, ids |-> <<>>]
+  /\ drops' = Bump(drops, Range(cell.ids))
+  /\ UNCHANGED <<mem, view, nextId>> /\ last' = L("ok")
+
 DropCell ==
   /\ cell.shape # "none"
   /\ drops' = Bump(drops, Range(cell.ids))
@@ -103,6 +128,9 @@ Do(e) ==
   \/ e.op = "Flip"         /\ Flip
   \/ e.op = "TakeOpt"      /\ TakeOpt
   \/ e.op = "DropCell"     /\ DropCell
+  \/ e.op = "ResOk"        /\ ResOk
+  \/ e.op = "ReplaceMut"   /\ ReplaceMut
+  \/ e.op = "DefaultOpt"   /\ DefaultOpt
 
 (* observation: buffer contents; the view's offset (address relative to the buffer), length, *)
 (* contents as read *through the view*; the cell's variant/payload as read through its current form *)
